@@ -79,6 +79,9 @@ type TxSpec struct {
 type Case struct {
 	Routines int        `json:"routines"` // signature-check goroutines (0 = default)
 	Blocks   [][]TxSpec `json:"blocks"`
+	// Excluded names the listed open findings whose triggering shape the generator replaced in
+	// this case (evidence label only).
+	Excluded []string `json:"excluded,omitempty"`
 }
 
 type Fail struct {
